@@ -589,7 +589,7 @@ def replay19 (vs : VSet) (pool : Array Arr) (progs texts : String) : Nat × Nat 
           -- invalid diagram): the release build wraps and goes on — the outcome of this instruction is not predicted
           | some (.panic m) => if isFuel m then "panic:fuel" else if m == wrapMsg then "?WRAPALL" else "panic"
           | some (.err _) => "err"
-        if g != res then
+        if g != res && !(g == "?WRAPALL" && res == "panic") then
           if g == "?WRAPALL" then wraps := wraps + 1
           else if (g.splitOn "?WRAP").length > 1 && matchesWrap g res then wraps := wraps + 1
           else dis := dis ++ [s!"{ins}->{(g.take 120).toString}"]
